@@ -158,6 +158,32 @@ pub fn configs(tier: Tier, judge: u32, liveness: bool) -> Vec<OutCfg> {
                 inbound_faults: false,
             });
         }
+        // limit + 3 senders at limit 1, one of them cancelled: a wake-up that a finished ready() future or a
+        // failed sender passes on must skip waiters that are gone and reach one that is still there
+        if liveness {
+            let mut sets = vec![vec![SK::Q1, SK::Ready, SK::Q1, SK::Q1]];
+            if tier == Tier::Thorough {
+                sets.push(vec![SK::Q1, SK::Ready, SK::Q1Loop(2), SK::Q1]);
+                sets.push(vec![SK::Q2Rel, SK::Ready, SK::Q1, SK::Ready]);
+            }
+            for senders in sets {
+                v.push(OutCfg {
+                    ep: ep_for(EpCfg::new(ver, role), 1, false),
+                    cap: 1,
+                    senders,
+                    cancels: 1,
+                    batch: false,
+                    bp: 0,
+                    peer: PeerMode::Correct,
+                    judge,
+                    prologue: 0,
+                    peer_max_packet: 0,
+                    inbound: 0,
+                    may_close: false,
+                    inbound_faults: false,
+                });
+            }
+        }
         // a sender that is woken but then fails locally (over-size packet) does not occupy the slot it was
         // woken for: the next parked sender must get the wake-up
         if liveness {
